@@ -28,7 +28,7 @@
 (***************************************************************************)
 EXTENDS Naturals, Sequences, FiniteSets
 
-Nil == [k |-> "nil", c |-> 0, v |-> <<>>]
+Nil == [k |-> "nil", c |-> 0, v |-> <<>>, s |-> 0]
 
 NCls(t) == Len(t.par)
 NF(c) == IF c % 2 = 1 THEN 2 ELSE 1
@@ -41,8 +41,14 @@ IsSub(t, c, d) == d \in Anc(t, c)              \* c is d or a descendant of d
 Related(t, c, d) == IsSub(t, c, d) \/ IsSub(t, d, c)
 AMRO(t, c) == Anc(t, c) \cap t.has              \* classes with arguments in c's MRO
 
-NsRec(c, vals) == [k |-> "ns", c |-> c, v |-> vals]
-RaRec(c, m) == [k |-> "ra", c |-> c, v |-> m]
+\* s = 1: the namespace is an instance of a SUBCLASS of the class's namespace class (the
+\* docs' "Inheriting Fields": same fields, same associated render class).  s is an
+\* instruction to the binding (which class to instantiate), never part of the VALUE: Eq,
+\* the hash laws and every comparison with the implementation use Proj (k, c, v).
+NsRecS(c, vals, s) == [k |-> "ns", c |-> c, v |-> vals, s |-> s]
+NsRec(c, vals) == NsRecS(c, vals, 0)
+RaRec(c, m) == [k |-> "ra", c |-> c, v |-> m, s |-> 0]
+Proj(x) == [k |-> x.k, c |-> x.c, v |-> x.v]
 DefMap(t, c) == [k \in 1..NCls(t) |-> IF k \in AMRO(t, c) THEN DefVals(k) ELSE <<>>]
 DefaultSet(t, c) == RaRec(c, DefMap(t, c))
 
@@ -141,10 +147,10 @@ OrReq(t, self, other, selfWinsTie) ==
 Expected(t, h, op) ==
   CASE op.op = "NsNew" ->
          IF KwUnknown(op.cls, op.kw) THEN Rej({"UnknownArgsFieldError"})
-         ELSE Acc(NsRec(op.cls, ApplyKw(DefVals(op.cls), op.kw)), NoReq)
+         ELSE Acc(NsRecS(op.cls, ApplyKw(DefVals(op.cls), op.kw), IF op.b = 1 THEN 1 ELSE 0), NoReq)
     [] op.op = "NsUpdate" ->
          IF KwUnknown(At(h, op.a).c, op.kw) THEN Rej({"UnknownArgsFieldError"})
-         ELSE Acc(NsRec(At(h, op.a).c, ApplyKw(At(h, op.a).v, op.kw)), NoReq)
+         ELSE Acc(NsRecS(At(h, op.a).c, ApplyKw(At(h, op.a).v, op.kw), At(h, op.a).s), NoReq)
     [] op.op = "New" ->
          Construct(t, Req(op.cls, IF op.a = 0 THEN Nil ELSE h[op.a], RecsOf(h, op.nss)))
     [] op.op = "UpdateNs" ->
@@ -186,7 +192,7 @@ Contains(ra, ns) == ra.v[ns.c] = ns.v
 GetItems(t, x) == IF x.k = "ra" THEN [c \in 1..(NCls(t) + 1) |-> GetItem(t, x, c - 1)] ELSE <<>>
 
 WellFormed(t, x) ==
-  \/ /\ x.k = "ns" /\ x.c \in t.has /\ x.v \in [1..NF(x.c) -> {0, 1}]
+  \/ /\ x.k = "ns" /\ x.c \in t.has /\ x.v \in [1..NF(x.c) -> {0, 1}] /\ x.s \in {0, 1}
   \/ /\ x.k = "ra" /\ x.c \in 0..NCls(t) /\ Len(x.v) = NCls(t)
      /\ \A k \in 1..NCls(t) :
           IF k \in AMRO(t, x.c) THEN x.v[k] \in [1..NF(k) -> {0, 1}] ELSE x.v[k] = <<>>
